@@ -432,6 +432,18 @@ fn gen(rng: &mut Rng, tier: Tier) -> Vec<Case> {
                     cps.push(*rng.pick(rep));
                 }
             }
+            // the extractor's line assembly (C11's subject) collapses runs of spaces, trims lines and
+            // fuses a line-final hyphen with the next line: keep those shapes out of the authored text
+            cps.dedup_by(|a, b| *a == 0x20 && *b == 0x20);
+            while cps.first() == Some(&0x20) {
+                cps.remove(0);
+            }
+            while matches!(cps.last(), Some(&0x20) | Some(&0x2D) | Some(&0x2010) | Some(&0x2011) | Some(&0x2012) | Some(&0x2013)) {
+                cps.pop();
+            }
+            if cps.is_empty() {
+                cps.push(0x41);
+            }
             if cps.iter().any(|c| *c > 0xFFFF) {
                 tags.insert("astral");
             }
